@@ -48,6 +48,7 @@ static int check_window(struct jls_rd_s *rd, const model_t *m, const win_t *w, c
     }
     int unaligned = ((w->start * t->bits) & 7) != 0;
     int cross = spd > 0 && (w->start / spd) != ((w->start + w->len - 1) / spd);
+    if (rc && o->errors_ok) { v_count(o->prop_data, "reads_returned_error", 1); free(buf); return bad; }
     if (rc) {
         int crashkind = strstr(fk(o), "writes") || strstr(fk(o), "torn") || strstr(fk(o), "omitted-blocks");
         if (crashkind && (!strcmp(fk(o), "omitted-blocks") || !strcmp(fk(o), "torn-header-update"))) snprintf(key, sizeof(key), "read-error|%s", fk(o));
@@ -250,6 +251,7 @@ static int check_stats_request(struct jls_rd_s *rd, const model_t *m, int sig, c
         v_violation(PS(o), "overrun", wj, "jls_rd_fsr_statistics wrote past data_length entries");
         bad = 1;
     }
+    if (rc && o->errors_ok) { v_count(PS(o), "statistics_returned_error", 1); free(out); return bad; }
     if (rc) {
         if (t->bits == 64 && rc == JLS_ERROR_UNSUPPORTED_FILE) { v_count(PS(o), "requests_unsupported_64bit", 1); free(out); return bad; }
         if (!strcmp(fk(o), "omitted-blocks") || !strcmp(fk(o), "torn-header-update")) snprintf(key, sizeof(key), "error-return|%s", fk(o));
@@ -268,12 +270,14 @@ static int check_stats_request(struct jls_rd_s *rd, const model_t *m, int sig, c
         double emax = f32s ? (double) (float) all.mx : (double) all.mx;
         if (level == 0) { emin = (double) all.mn; emax = (double) all.mx; }
         if (out[JLS_SUMMARY_FSR_MIN] != emin || out[JLS_SUMMARY_FSR_MAX] != emax) {
+            if (!strcmp(fk(o), "omitted-blocks")) snprintf(key, sizeof(key), "stats-value|omitted-blocks"); else
             snprintf(key, sizeof(key), "single|minmax|level=%d|%s", level, fk(o));
             v_violation(PS(o), key, wj, "min/max %.10g/%.10g, written samples give %.10g/%.10g", out[JLS_SUMMARY_FSR_MIN], out[JLS_SUMMARY_FSR_MAX], emin, emax);
             bad = 1;
         }
         long double tol = (16 * eps_s + (long double) incr * ldexpl(1.0L, -52)) * amax;
         if (!(fabsl((long double) out[JLS_SUMMARY_FSR_MEAN] - all.mean) <= tol)) {
+            if (!strcmp(fk(o), "omitted-blocks")) snprintf(key, sizeof(key), "stats-value|omitted-blocks"); else
             snprintf(key, sizeof(key), "single|mean|level=%d|%s", level, fk(o));
             v_violation(PS(o), key, wj, "mean %.12g, exact %.12Lg (tolerance %.3Lg)", out[JLS_SUMMARY_FSR_MEAN], all.mean, tol);
             bad = 1;
@@ -284,6 +288,7 @@ static int check_stats_request(struct jls_rd_s *rd, const model_t *m, int sig, c
         if (incr == 1) { lo = 0; hi = absn; }
         long double g = out[JLS_SUMMARY_FSR_STD];
         if (!(g >= lo && g <= hi)) {
+            if (!strcmp(fk(o), "omitted-blocks")) snprintf(key, sizeof(key), "stats-value|omitted-blocks"); else
             snprintf(key, sizeof(key), "single|std|level=%d|%s", level, fk(o));
             v_violation(PS(o), key, wj, "std %.12Lg outside [%.12Lg, %.12Lg] (sample std %.12Lg)", g, lo, hi, all.sd);
             bad = 1;
@@ -305,6 +310,7 @@ static int check_stats_request(struct jls_rd_s *rd, const model_t *m, int sig, c
             for (int q = 0; q < 3; ++q) {
                 long double v = e[idx[q]];
                 if (!(v >= w.mn - tol && v <= w.mx + tol)) {
+                    if (!strcmp(fk(o), "omitted-blocks")) snprintf(key, sizeof(key), "stats-value|omitted-blocks"); else
                     snprintf(key, sizeof(key), "multi|%s-outside|level=%d|%s", nm[q], level, fk(o));
                     v_violation(PS(o), key, wj, "entry %lld %s %.12Lg outside [%.12Lg, %.12Lg] of its window widened by one increment", (long long) j, nm[q], v, w.mn, w.mx);
                     bad = 1;
@@ -316,6 +322,7 @@ static int check_stats_request(struct jls_rd_s *rd, const model_t *m, int sig, c
             long double avg = msum / count;
             long double tol2 = tol * 4;
             if (!(fabsl(avg - all.mean) <= tol2)) {
+                if (!strcmp(fk(o), "omitted-blocks")) snprintf(key, sizeof(key), "stats-value|omitted-blocks"); else
                 snprintf(key, sizeof(key), "multi|mean-of-means|level=%d|%s", level, fk(o));
                 v_violation(PS(o), key, wj, "average of entry means %.12Lg, exact mean of range %.12Lg (tolerance %.3Lg)", avg, all.mean, tol2);
                 bad = 1;
@@ -1154,12 +1161,16 @@ int decode_and_compare(const char *path, const model_t *m, const char *prop, con
  * prefix semantics (files reopened after a crash)
  * ===================================================================================== */
 int verify_prefix(struct jls_rd_s *rd, const model_t *m, const char *prop, rng_t *r, const char *path, int64_t *lengths_out, const char *kind) {
+    return verify_prefix_ex(rd, m, prop, r, path, lengths_out, kind, 0);
+}
+
+int verify_prefix_ex(struct jls_rd_s *rd, const model_t *m, const char *prop, rng_t *r, const char *path, int64_t *lengths_out, const char *kind, int errors_ok) {
     char key[200], wj[300];
     int bad = 0;
     jd_t dec; int have_dec = 0;
     if (jd_load(&dec, path) == 0) { jd_decode(&dec); have_dec = 1; }
     verify_opts_t o; memset(&o, 0, sizeof(o));
-    o.prop_len = prop; o.prop_data = prop; o.prop_stats = prop; o.rng = r; o.file_kind = kind ? kind : "repaired"; o.windows = 6;
+    o.prop_len = prop; o.prop_data = prop; o.prop_stats = prop; o.rng = r; o.file_kind = kind ? kind : "repaired"; o.windows = 6; o.errors_ok = errors_ok;
     /* definitions: whatever is returned must be something that was submitted */
     struct jls_source_def_s *src = NULL; uint16_t nsrc = 0;
     v_api("jls_rd_sources");
